@@ -38,10 +38,12 @@ def crc64Step (crc : UInt64) (b : UInt8) : UInt64 :=
 def crc64 (bs : Bytes) : Nat := (bs.foldl crc64Step 0).toNat
 
 /-- `RdbReader.checkHeader`: files of at most 8 bytes pass; otherwise the last
-    8 bytes are the little-endian CRC64 of everything before them. -/
+    8 bytes are the little-endian CRC64 of everything before them — and NOT zero (session 5:
+    a zero trailer records no checksum; the CRC64 of an all-zero payload is zero). -/
 def rdbFooterOk (file : Bytes) : Bool :=
   if file.length ≤ 8 then true
-  else ofLE (file.drop (file.length - 8)) == crc64 (file.take (file.length - 8))
+  else ofLE (file.drop (file.length - 8)) != 0 &&
+    ofLE (file.drop (file.length - 8)) == crc64 (file.take (file.length - 8))
 
 def headerSize : Nat := 16
 
